@@ -722,6 +722,9 @@ func (e *applicationSettingsExtension) Read(b []byte, supportedProtocols []strin
 
 	stringsLength := 0
 	for _, s := range supportedProtocols {
+		if len(s) > 255 {
+			return 0, errors.New("application settings protocol name too long")
+		}
 		l := len(s)            // Supported ALPN Length
 		b[0] = byte(l)         // Supported ALPN Length in bytes hex: 02 dec: 2
 		copy(b[1:], s)         // copy the Supported ALPN as bytes to the buffer
